@@ -942,6 +942,7 @@ class Frame:
             if op == 'PtrMetadata':
                 tgt = v.get() if isinstance(v, Ref) else v
                 if hasattr(tgt, 'items'): return u64(len(tgt.items))
+                if hasattr(tgt, 'len') and isinstance(getattr(tgt, 'len'), Num): return tgt.len     # byte strings with a symbolic length (symgen.BytesV and harness slices)
                 return UNIT
             raise Unmodelled(f'unary {op}')
         if 'Discriminant' in r:
